@@ -10,6 +10,18 @@ memory; on a store that does not hold its cached local head (opened with `Load(n
 -/
 namespace Orbit
 
+/-- an append keeps what the log held -/
+theorem append_has_mono (ca : Entry → Bool) (L : Log) (mk : Nat → List Nat → Entry) (h : Nat)
+    (hh : has L.entries h = true) : has (append ca L mk).1.entries h = true := by
+  obtain ⟨y, hy, hyx⟩ := (has_iff _ _).mp hh
+  refine (has_iff _ _).mpr ⟨y, ?_, hyx⟩
+  rw [append_eq]
+  split
+  · simp only [set]; split
+    · exact hy
+    · exact List.mem_append_left _ hy
+  · exact hy
+
 /-- **nothing the cache pointed to is forgotten by a write**: every local head cached before an
 `AddOperation` is cached after it, or the log holds it -/
 theorem addOp_keeps_cached (acl : Acl) (s : Store) (mk : Nat → List Nat → Entry) :
@@ -19,8 +31,8 @@ theorem addOp_keeps_cached (acl : Acl) (s : Store) (mk : Nat → List Nat → En
   rw [addOp_localHeads, addOp_log]
   split
   · simp only [Option.getD_some, List.mem_cons]
-    by_cases hl : has (append acl.canAppend s.log mk).1.entries h = true
-    · exact Or.inr hl
+    by_cases hl : has s.log.entries h = true
+    · exact Or.inr (append_has_mono _ _ _ _ hl)
     · left; right
       simp only [keptHeads, List.mem_filter]
       exact ⟨hh, by simpa using hl⟩
@@ -35,19 +47,10 @@ theorem addOp_eq_addOp0 (acl : Acl) (s : Store) (mk : Nat → List Nat → Entry
   split
   · rfl
   · rename_i e he
-    have hk : keptHeads s.localHeads (s.addOp0 acl mk).1.log = [] := by
+    have hk : keptHeads s.localHeads s.log = [] := by
       simp only [keptHeads, List.filter_eq_nil_iff]
       intro x hx
-      obtain ⟨y, hy, hyx⟩ := (has_iff _ _).mp (h x hx)
-      have hmono : y ∈ (s.addOp0 acl mk).1.log.entries := by
-        rw [addOp0_log, append_eq]
-        split
-        · simp only [set]; split
-          · exact hy
-          · exact List.mem_append_left _ hy
-        · exact hy
-      have : has (s.addOp0 acl mk).1.log.entries x = true := (has_iff _ _).mpr ⟨y, hmono, hyx⟩
-      simp [this]
+      simp [h x hx]
     rw [hk]
     have hl := addOp0_localHeads acl s mk
     have h2 := addOp0_snd acl s mk
